@@ -8,6 +8,8 @@ import ConfModel.Lemmas.H2Retry
 import ConfModel.Lemmas.H2FrameSpec
 import ConfModel.Lemmas.H2Once
 import ConfModel.Lemmas.H2DataSpec
+import ConfModel.Lemmas.H2E2EConn
+import ConfModel.Lemmas.H2E2EExamples
 import ConfModel.Spec.H2
 namespace ConfModel.Props.C15
 open ConfModel.H2 ConfModel.H2.Machine
@@ -323,6 +325,131 @@ example :
     (Coll.init.run [.complete t₁, .complete tb, .newAttempt "a", .newAttempt "b", .complete t₂, .timesUp "a", .cancel]).out
       = [tb, t₂] := by
   decide
+
+/-! ### end to end: layers 1 + 2 + 3 against the property's predicate -/
+
+/-- **Running the calls is running layers 2 + 3 on the wire events of the calls**: the stream
+table and the retry collector after any sequence of `Read`/`Write`/`Close` calls (and timer
+expiries) are those obtained by feeding `handleFrame` / `cancelAll` / the retry timers with
+`Conn.wireEvents` — the frames layer 1 completes call by call, each tagged with its
+direction, and the ends of the connection. -/
+theorem conn_run_eq_runW (decR decW : Bytes → σ → Option (Frame × σ)) (c : Conn σ) (calls : List Call) :
+    ((c.run decR decW calls).l2, (c.run decR decW calls).coll) = runW (c.l2, c.coll) (c.wireEvents decR decW calls) :=
+  conn_run_eq decR decW calls c
+
+/-- **Partition independence, on the connection.**  The request (response) frames among the
+wire events of a run are the frames layer 1 makes of *all* bytes read (written), in order —
+whatever the partition of either direction into calls, whatever the interleaving of reads
+and writes, errors, timeouts and timer expiries in between. -/
+theorem wire_events_partition_independent (decR decW : Bytes → σ → Option (Frame × σ)) (isServer : Bool) (hpR hpW : σ)
+    (calls : List Call) :
+    dirFrames isServer ((Conn.init isServer hpR hpW).wireEvents decR decW calls)
+      = (frameTrace decR (FSt.init isServer hpR) (readBytes calls)).2 ∧
+    dirFrames (!isServer) ((Conn.init isServer hpR hpW).wireEvents decR decW calls)
+      = (frameTrace decW (FSt.init (!isServer) hpW) (writeBytes calls)).2 := by
+  have hne : (Conn.init isServer hpR hpW).wr.isReq ≠ (Conn.init isServer hpR hpW).rd.isReq := by
+    cases isServer <;> simp [Conn.init, FSt.init]
+  exact ⟨wire_frames_read decR decW calls (Conn.init isServer hpR hpW) (FInv_init _ _) hne,
+    wire_frames_write decR decW calls (Conn.init isServer hpR hpW) (FInv_init _ _) hne⟩
+
+/-- … so if the bytes read are (the client preface and) the encodings of raw frames `fs`, the
+frames of that direction among the wire events are exactly those frames (`specFrames`). -/
+theorem wire_events_eq_frames (decR decW : Bytes → σ → Option (Frame × σ)) (isServer : Bool) (hpR hpW : σ)
+    (calls : List Call) (fs : List RawFrame) (hok : ∀ f ∈ fs, f.ok)
+    (hb : readBytes calls = (if isServer then clientPreface else []) ++ (fs.map RawFrame.enc).flatten) :
+    dirFrames isServer ((Conn.init isServer hpR hpW).wireEvents decR decW calls) = (specFrames decR [] hpR fs).1 := by
+  rw [(wire_events_partition_independent decR decW isServer hpR hpW calls).1, hb]
+  exact (reassembly_eq_frames decR isServer hpR fs hok).1
+
+/-- non-vacuity: server side, the preface and a SETTINGS frame read in two calls that cut the
+preface, a write in between -/
+example :
+    let calls : List Call := [.read (clientPreface.take 10) .ok, .write [0, 0, 0] .ok,
+      .read (clientPreface.drop 10 ++ [0, 0, 0, 4, 0, 0, 0, 0, 0]) .ok]
+    let fs : List RawFrame := [⟨4, 0, [0, 0, 0, 0], []⟩]
+    (∀ f ∈ fs, f.ok) ∧ readBytes calls = (if true then clientPreface else []) ++ (fs.map RawFrame.enc).flatten := by
+  decide
+
+/-- **End to end, layers 2 + 3, every interleaving.**  For *every* sequence of wire events
+(frames of both directions in any interleaving, connection ends, timer expiries) that is
+well-formed (`Spec.wellFormed`: per-stream order respected, ids not reused, no new stream
+after GOAWAY, test names unique except for retry chains) and in which the connection only
+ends with an I/O error or `Close`, what the model delivers downstream satisfies the
+property's predicate `Spec.deliveredOK` — the predicate the driver evaluates on the
+implementation's traces: only traces with a test name that some stream carries; for every
+test name exactly one trace per stream that is due (ended; not held back for a retry; not
+superseded by a retry), and that trace satisfies `Spec.traceOK` for its stream: request line
+and headers, request and response messages in order = envelope parse of the concatenated
+DATA payloads, response status / headers / trailers, its end or reset. -/
+theorem traces_ok_every_interleaving (isServer : Bool) (ws : List WEv) (hwf : wellFormed ws = true) (hl : lossesOK ws = true) :
+    deliveredOK isServer (expects [] ws)
+      ((runW ({ isServer := isServer, streams := [], maxId := 0 }, Coll.init) ws).2.out.map Trace.obs) = true := by
+  obtain ⟨g, hinv⟩ := wf_inv isServer ws hwf hl
+  exact deliveredOK_of_inv hinv
+
+/-- non-vacuity: a refused stream (test `a`, stream 1, RST_STREAM REFUSED_STREAM) and its
+retry on stream 3 are well-formed traffic; stream 1 is superseded, stream 3 is due -/
+example : wellFormed Ex.wsRetry = true ∧ lossesOK Ex.wsRetry = true ∧
+    (expects [] Ex.wsRetry).map (fun e => (e.id, e.name, e.superseded, e.due)) = [(1, "a", true, false), (3, "a", false, true)] := by
+  simp [wellFormed, Ex.wsRetry, expects, Expect.see, supersede, Ex.name_a, Expect.isOpen, Expect.name, Expect.held, Ending.err,
+    Err.retryable, nodupNat, noOpenAfterGoaway, lossesOK, WEv.lossOK, Expect.due]
+
+/-- **Exactly one completed trace for a stream that is due**, and it is the promised one
+(`Spec.traceOK`); a refused stream that was retried is superseded, hence never due: the one
+trace delivered under its test name is the retry's. -/
+theorem due_stream_exactly_one_trace (isServer : Bool) (ws : List WEv) (hwf : wellFormed ws = true) (hl : lossesOK ws = true)
+    (e : Expect) (he : e ∈ expects [] ws) (hn : e.name ≠ "") (hd : e.due = true) :
+    ∃ t, (runW ({ isServer := isServer, streams := [], maxId := 0 }, Coll.init) ws).2.outFor e.name = [t] ∧
+      traceOK isServer e t.obs = true := by
+  obtain ⟨g, hinv⟩ := wf_inv isServer ws hwf hl
+  exact due_has_trace hinv e he hn hd
+
+/-- non-vacuity: the retry of the example above is a member of `expects`, named and due -/
+example : ∃ e ∈ expects [] Ex.wsRetry, e.name ≠ "" ∧ e.due = true ∧ e.id = 3 := by
+  simp [Ex.wsRetry, expects, Expect.see, supersede, Ex.name_a, Expect.isOpen, Expect.name, Expect.held, Ending.err,
+    Err.retryable, Expect.due]
+
+/-- Nothing is delivered under a test name while none of its streams is due (still open, held
+back for a possible retry, or superseded by a retry that is still running). -/
+theorem nothing_before_due (isServer : Bool) (ws : List WEv) (hwf : wellFormed ws = true) (hl : lossesOK ws = true)
+    (n : String) (hn : n ≠ "") (hnd : ∀ e ∈ expects [] ws, e.name = n → e.due = false) :
+    (runW ({ isServer := isServer, streams := [], maxId := 0 }, Coll.init) ws).2.outFor n = [] := by
+  obtain ⟨g, hinv⟩ := wf_inv isServer ws hwf hl
+  exact not_due_nothing hinv n hn hnd
+
+/-- non-vacuity: while the refused stream is held back for a retry, no stream of `a` is due -/
+example : wellFormed (Ex.wsRetry.take 2) = true ∧ lossesOK (Ex.wsRetry.take 2) = true ∧
+    (∀ e ∈ expects [] (Ex.wsRetry.take 2), e.name = "a" → e.due = false) := by
+  simp [wellFormed, Ex.wsRetry, expects, Expect.see, supersede, Ex.name_a, Expect.isOpen, Expect.name, Expect.held, Ending.err,
+    Err.retryable, nodupNat, noOpenAfterGoaway, lossesOK, WEv.lossOK, Expect.due]
+
+/-- **End to end, all three layers.**  For every decoder pair, every side, and every sequence
+of `Read`/`Write`/`Close` calls and timer expiries — i.e. every partition of each direction's
+bytes into calls and every interleaving of the two directions — whose wire events are
+well-formed, the traces the model has delivered downstream satisfy `Spec.deliveredOK`.
+(`lossesOK` needs no hypothesis here: `Read`/`Write`/`Close` only end a connection with an
+I/O error or "closed".)  By `wire_events_partition_independent` the frame sequence of each
+direction among those wire events depends only on the direction's bytes. -/
+theorem end_to_end (decR decW : Bytes → σ → Option (Frame × σ)) (isServer : Bool) (hpR hpW : σ) (calls : List Call)
+    (hwf : wellFormed ((Conn.init isServer hpR hpW).wireEvents decR decW calls) = true) :
+    deliveredOK isServer (expects [] ((Conn.init isServer hpR hpW).wireEvents decR decW calls))
+      (((Conn.init isServer hpR hpW).run decR decW calls).coll.out.map Trace.obs) = true := by
+  have hrun := conn_run_eq decR decW calls (Conn.init isServer hpR hpW)
+  have hc : ((Conn.init isServer hpR hpW).run decR decW calls).coll =
+      (runW ((Conn.init isServer hpR hpW).l2, (Conn.init isServer hpR hpW).coll)
+        ((Conn.init isServer hpR hpW).wireEvents decR decW calls)).2 := by rw [← hrun]
+  rw [hc]
+  exact traces_ok_every_interleaving isServer _ hwf (wireEvents_lossesOK decR decW calls _)
+
+/-- non-vacuity: a client-side run whose two directions are cut into calls in the middle of
+frames and interleaved; its wire events are the request HEADERS (test `a`), the response
+HEADERS and the loss of the connection at `Close`; they are well-formed -/
+example :
+    (Conn.init false 0 0).wireEvents Ex.decP Ex.decQ Ex.callsX = Ex.wsX ∧ wellFormed Ex.wsX = true ∧
+    (expects [] Ex.wsX).map (fun e => (e.id, e.name, e.due)) = [(1, "a", true)] := by
+  refine ⟨by decide, ?_⟩
+  simp [wellFormed, Ex.wsX, expects, Expect.see, supersede, Ex.name_a, Expect.isOpen, Expect.name, Expect.held, Ending.err,
+    Err.retryable, nodupNat, noOpenAfterGoaway, Expect.due]
 
 /-! ### transparency -/
 
